@@ -106,7 +106,7 @@ def _run(ctx, quick, pool):
         reps = 1 if quick else 3
         for r in range(reps):
             ci = (i * reps + r + ctx.seed) % ncfg
-            items_by_cfg.setdefault(ci, []).append(dict(beh=b, mode="exact", t0=[0.0, 0.25, -0.5, 1.0][(i + r) % 4],
+            items_by_cfg.setdefault(ci, []).append(dict(beh=b, mode="exact", t0=[0.0, 0.25, -0.5, 1.0, 16384.0, -8192.0][(i + r) % 6],
                                                         j=[3, 4, 5][(i + r) % 3], bi=i))
             n_exact += 1
     # solvers with extra state: every behaviour with a rejection (quick: every second one) additionally on a
@@ -118,7 +118,7 @@ def _run(ctx, quick, pool):
             continue
         ci = rh[(i + ctx.seed) % len(rh)]
         items_by_cfg.setdefault(ci, []).append(dict(beh=b, mode="exact" if n_rh % 3 else "classes",
-                                                    t0=[0.0, 0.25, -0.5, 1.0][i % 4], j=[3, 4, 5][i % 3], bi=i))
+                                                    t0=[0.0, 0.25, -0.5, 1.0, 16384.0, -8192.0][i % 6], j=[3, 4, 5][i % 3], bi=i))
         n_exact += bool(n_rh % 3)
         n_rh += 1
     # estimate-class schedules (distinct), real controller
@@ -130,7 +130,7 @@ def _run(ctx, quick, pool):
     for n, (k, i) in enumerate(sorted(seen.items())):
         for r in range(1 if quick else 4):
             ci = (n * 5 + r * 7 + ctx.seed) % ncfg
-            items_by_cfg.setdefault(ci, []).append(dict(beh=behs[i], mode="classes", t0=[0.0, 0.25, -0.5, 1.0][n % 4],
+            items_by_cfg.setdefault(ci, []).append(dict(beh=behs[i], mode="classes", t0=[0.0, 0.25, -0.5, 1.0, 16384.0, -8192.0][n % 6],
                                                         j=[3, 4, 5][n % 3], bi=i))
     jobs = []
     for ci, items in sorted(items_by_cfg.items()):
